@@ -24,6 +24,7 @@ import (
 	"io"
 
 	"github.com/btcsuite/btcd/btcec/v2"
+	"github.com/btcsuite/btcd/btcec/v2/schnorr/musig2"
 	"github.com/btcsuite/btcd/chainhash/v2"
 	"github.com/btcsuite/btcd/wire/v2"
 	"github.com/lightningnetwork/lnd/chanstate"
@@ -32,6 +33,7 @@ import (
 	"github.com/lightningnetwork/lnd/input"
 	"github.com/lightningnetwork/lnd/lntypes"
 	"github.com/lightningnetwork/lnd/lnwire"
+	"github.com/lightningnetwork/lnd/shachain"
 )
 
 // ---------------------------------------------------------------------------
@@ -158,6 +160,11 @@ type c03Party struct {
 
 	store    *c03Store
 	realSign bool // native only: graft what the real SignNextCommitment needs
+
+	// taproot only
+	skipInit  bool           // opts.skipNonceInit: the nonces were exchanged before (peer.addLink)
+	localNonce *musig2.Nonces // our pending verification nonce
+	prevNonce  lnwire.Musig2Nonce // skipInit: the remote nonce of the earlier exchange
 }
 
 func (p *c03Party) remTip() uint64 {
@@ -172,6 +179,10 @@ func (p *c03Party) pending() bool {
 	return p.localLogIdx != p.tipLocalIdx || p.tailRemoteIdx != p.tipRemoteIdx
 }
 func (p *c03Party) window() bool { return !p.unacked && p.nextPt != nil }
+
+// c03DiffTx (native, taproot): a real commitment transaction for the real
+// SignCommit to sign.
+var c03DiffTx *wire.MsgTx
 
 // vC03Base is set by the native setup: a real test channel whose signer, keys
 // and balances let the real SignNextCommitment run during replay.
@@ -229,9 +240,12 @@ func c03Chan(p *c03Party) *LightningChannel {
 	}
 	if vNative() {
 		lc.log = walletLog
-		if p.realSign && vC03Base != nil {
+		if (p.realSign || p.ct.IsTaproot()) && vC03Base != nil {
 			c03Graft(lc, p)
 		}
+	}
+	if p.ct.IsTaproot() {
+		c03TaprootInit(lc, p)
 	}
 	return lc
 }
@@ -241,11 +255,13 @@ func c03Chan(p *c03Party) *LightningChannel {
 func c03Graft(lc *LightningChannel, p *c03Party) {
 	base := vC03Base(p.ct)
 	bs, st := base.channelState, lc.channelState
+	c03DiffTx = bs.RemoteCommitment.CommitTx
 	st.LocalChanCfg, st.RemoteChanCfg = bs.LocalChanCfg, bs.RemoteChanCfg
 	st.IsInitiator, st.Capacity, st.IdentityPub = bs.IsInitiator, bs.Capacity, bs.IdentityPub
 	lc.Capacity = bs.Capacity
 	lc.Signer, lc.signDesc, lc.sigPool = base.Signer, base.signDesc, base.sigPool
 	lc.fundingOutput = base.fundingOutput
+	st.TapscriptRoot = bs.TapscriptRoot
 	lc.opts = defaultChannelOpts()
 	lc.commitBuilder = NewCommitmentBuilder(st, fn.None[AuxLeafStore]())
 	cp := func(dst, src *commitment) {
@@ -283,6 +299,8 @@ func c03Sign(lc *LightningChannel, _ context.Context) (*NewCommitState, error) {
 func c03Config() {
 	vReplace("github.com/lightningnetwork/lnd/input.ComputeCommitmentPoint", "github.com/lightningnetwork/lnd/lnwallet.c03Point")
 	vReplace("(*github.com/lightningnetwork/lnd/lnwallet.LightningChannel).SignNextCommitment", "github.com/lightningnetwork/lnd/lnwallet.c03Sign")
+	vReplace("github.com/lightningnetwork/lnd/chanstate.NewMusigVerificationNonce", "github.com/lightningnetwork/lnd/lnwallet.c03VerNonce")
+	vReplace("(*github.com/lightningnetwork/lnd/lnwallet.MusigSession).SignCommit", "github.com/lightningnetwork/lnd/lnwallet.c03SignCommit")
 	vAssumption("C03: per-commitment secrets are an ideal function sec(party, height) (vHash); commitment points are an ideal function of the secret; shachain producer/store and the channel store are fakes behind shachain.Producer, shachain.Store, chanstate.Store")
 	vAssumption("C03: SignNextCommitment is replaced by its contract: ErrNoWindow iff the remote chain has an unacked commitment or RemoteNextRevocation is nil; otherwise it persists a CommitDiff through AppendRemoteCommitChain (returning that call's error) and returns the persisted signature")
 }
@@ -303,6 +321,10 @@ func c03Outpoint() wire.OutPoint {
 func c03Diff(k int) *chanstate.CommitDiff {
 	d := &chanstate.CommitDiff{
 		CommitSig: &lnwire.CommitSig{},
+	}
+	d.Commitment.CommitTx = c03DiffTx
+	if d.Commitment.CommitTx == nil {
+		d.Commitment.CommitTx = &wire.MsgTx{Version: 2}
 	}
 	copy(d.CommitSig.ChanID[:], vBytes("diffChanID", 32))
 	if k >= 1 {
@@ -359,6 +381,8 @@ func c03SymParty(self, peer byte) *c03Party {
 
 type c03Msg struct {
 	m             *lnwire.ChannelReestablish
+	nonceKind     int                // taproot: see c03MsgNonces
+	nonce         lnwire.Musig2Nonce // the nonce the receiver must use (if any)
 	hasOpts       bool
 	secretCorrect bool
 	ptSel         byte // 0 = none, 1..3 = pool point 0..2
@@ -474,6 +498,7 @@ type c03Ref struct {
 	pointBad     bool // my_current_per_commitment_point is not the one we hold for height n-1
 	storeBad     bool // the stored commitment to retransmit cannot be read
 	signBad      bool // the fresh signature could not be persisted
+	nonceBad     bool // taproot: no usable next_local_nonce in the message
 	// retransmissions when nothing fails
 	oweRev    bool // r == number of the last revoke_and_ack we sent
 	oweCommit bool // n == number of the last commitment_signed we sent, not yet acked
@@ -519,7 +544,7 @@ func c03Reference(p *c03Party, x *c03Msg) c03Ref {
 
 func (f c03Ref) mustFail() bool {
 	return f.secretBad || f.weAreBehind || f.theyLostRev || f.theyAhead || f.theyLostSig ||
-		f.pointBad || f.storeBad || f.signBad
+		f.pointBad || f.storeBad || f.signBad || f.nonceBad
 }
 
 // admissible: BOLT-2 does not order the checks, so any failure whose
@@ -542,6 +567,10 @@ func (f c03Ref) admissible(cls int, hasOpts bool) bool {
 		return f.storeBad
 	case c03SignErr:
 		return f.signBad
+	case c03Other:
+		// the only failures without a sentinel error value are the two
+		// "nonce missing" errors of taproot channels
+		return f.nonceBad
 	}
 	return false
 }
@@ -574,7 +603,7 @@ func c03Check(tag string, p *c03Party, x *c03Msg, f c03Ref, res c03Result) {
 
 	vAssert((cls != c03OK) == f.mustFail(), tag+"the channel is failed iff BOLT-2 names a reason to fail it")
 	if cls != c03OK {
-		vAssert(cls != c03Other, tag+"unexpected error value")
+		vAssert(cls != c03Other || f.nonceBad, tag+"unexpected error value")
 		vAssert(f.admissible(cls, x.hasOpts), tag+"the reported failure is one whose BOLT-2 condition holds (no false data-loss)")
 		vAssert(len(res.msgs) == 0 && len(res.opened) == 0 && len(res.closed) == 0, tag+"nothing is retransmitted together with a failure")
 		if dl != nil {
@@ -703,6 +732,8 @@ func c03ReachFail(tag string, cls int, f c03Ref, x *c03Msg) {
 		vReach(tag + "store-error")
 	case c03SignErr:
 		vReach(tag + "sign-error")
+	case c03Other:
+		vReach(tag + "taproot-nonce-missing")
 	}
 }
 
@@ -885,3 +916,213 @@ func VerifC03RestoredPeer() {
 		vReach("restored-tweakless-height-zero")
 	}
 }
+
+// ---------------------------------------------------------------------------
+// Taproot channels: nonce plumbing of channel_reestablish
+// ---------------------------------------------------------------------------
+
+// c03VerNonce stands in for chanstate.NewMusigVerificationNonce under the
+// symbolic engine: an ideal public nonce that is a function of the shachain
+// secret at the target height (natively the real, deterministic function
+// runs).
+func c03VerNonce(_ *btcec.PublicKey, height uint64, gen shachain.Producer) (*musig2.Nonces, error) {
+	pre, err := gen.AtIndex(height)
+	if err != nil {
+		return nil, err
+	}
+	n := &musig2.Nonces{}
+	copy(n.PubNonce[:], vHash("c03nonce", 66, pre[:]))
+	return n, nil
+}
+
+// c03Musig records what the SignCommit stand-in saw.
+var c03Musig struct {
+	calls   int
+	tx      *wire.MsgTx
+	remote  lnwire.Musig2Nonce // verification nonce of the session that signed
+	scalar  uint32
+	session *MusigSession
+}
+
+// c03SignCommit stands in for (*MusigSession).SignCommit under the symbolic
+// engine: an opaque partial signature. It records the session's verification
+// nonce at signing time, i.e. which remote nonce the signature is bound to.
+func c03SignCommit(m *MusigSession, tx *wire.MsgTx) (*MusigPartialSig, error) {
+	c03Musig.calls++
+	c03Musig.tx = tx
+	c03Musig.session = m
+	c03Musig.remote = m.nonces.VerificationNonce.PubNonce
+	var sc btcec.ModNScalar
+	sc.SetInt(c03Musig.scalar)
+	return &MusigPartialSig{sig: &musig2.PartialSignature{S: &sc}}, nil
+}
+
+// c03RemoteNonce: a public nonce of the peer. Symbolically arbitrary bytes,
+// natively a real nonce (the real SignCommit parses it).
+func c03RemoteNonce(name string) lnwire.Musig2Nonce {
+	var n lnwire.Musig2Nonce
+	copy(n[:], vBytes(name, 66))
+	if vNative() {
+		var seed [32]byte
+		copy(seed[:], n[:32])
+		seed[0] |= 1
+		priv, pub := btcec.PrivKeyFromBytes(seed[:])
+		_ = priv
+		nn, err := musig2.GenNonces(musig2.WithPublicKey(pub))
+		if err != nil {
+			panic(err)
+		}
+		n = nn.PubNonce
+	}
+	return n
+}
+
+func c03TaprootInit(lc *LightningChannel, p *c03Party) {
+	if lc.opts == nil {
+		lc.opts = defaultChannelOpts()
+	}
+	lc.opts.skipNonceInit = p.skipInit
+	lc.taprootNonceProducer = &c03Producer{chain: p.self + 16}
+	// NewLightningChannel generates the verification nonce for height+1
+	n, err := chanstate.NewMusigVerificationNonce(
+		lc.channelState.LocalChanCfg.MultiSigKey.PubKey, p.localH+1, lc.taprootNonceProducer,
+	)
+	if err != nil {
+		panic(err)
+	}
+	lc.pendingVerificationNonce = n
+	p.localNonce = n
+	if p.skipInit {
+		// the link was added with nonces already exchanged: sessions exist
+		if err := lc.InitRemoteMusigNonces(&musig2.Nonces{PubNonce: p.prevNonce}); err != nil {
+			panic(err)
+		}
+	}
+}
+
+// c03MsgNonces fills the nonce fields of the message.
+//
+//	kind 0: none            1: legacy LocalNonce
+//	     2: LocalNonces map holding the funding txid
+//	     3: LocalNonces map without the funding txid
+//	     4: both fields (LocalNonces has priority)
+func c03MsgNonces(p *c03Party, x *c03Msg, kinds int) {
+	x.nonceKind = vChoice("msgNonceKind", kinds)
+	legacy, mapped := c03RemoteNonce("msgLocalNonce"), c03RemoteNonce("msgLocalNoncesEntry")
+	switch x.nonceKind {
+	case 1:
+		x.m.LocalNonce = lnwire.SomeMusig2Nonce(legacy)
+		x.nonce = legacy
+	case 2, 4:
+		x.m.LocalNonces = lnwire.SomeLocalNonces(lnwire.LocalNoncesData{
+			NoncesMap: map[chainhash.Hash]lnwire.Musig2Nonce{p.outpoint.Hash: mapped},
+		})
+		x.nonce = mapped
+		if x.nonceKind == 4 {
+			x.m.LocalNonce = lnwire.SomeMusig2Nonce(legacy)
+		}
+	case 3:
+		other := p.outpoint.Hash
+		other[0] ^= 0x80
+		x.m.LocalNonces = lnwire.SomeLocalNonces(lnwire.LocalNoncesData{
+			NoncesMap: map[chainhash.Hash]lnwire.Musig2Nonce{other: mapped},
+		})
+	}
+}
+
+func c03TaprootType(i int) chanstate.ChannelType {
+	base := chanstate.SingleFunderTweaklessBit | chanstate.AnchorOutputsBit | chanstate.ZeroHtlcTxFeeBit |
+		chanstate.SimpleTaprootFeatureBit
+	if i == 1 {
+		return base | chanstate.TaprootFinalBit
+	}
+	return base
+}
+
+// c03TaprootPost: obligations specific to taproot after a successful resync.
+func c03TaprootPost(lc *LightningChannel, p *c03Party, x *c03Msg, res c03Result) {
+	vAssert(lc.musigSessions != nil && lc.musigSessions.RemoteSession != nil && lc.musigSessions.LocalSession != nil,
+		"taproot: musig sessions exist after the resync")
+	if lc.musigSessions == nil || lc.musigSessions.RemoteSession == nil || lc.musigSessions.LocalSession == nil {
+		return
+	}
+	want := x.nonce
+	if p.skipInit {
+		want = p.prevNonce
+	}
+	vAssert(lc.musigSessions.RemoteSession.nonces.VerificationNonce.PubNonce == want,
+		"taproot: the session for the peer's commitment is bound to the nonce of this channel_reestablish")
+	vAssert(lc.musigSessions.LocalSession.nonces.VerificationNonce.PubNonce == p.localNonce.PubNonce,
+		"taproot: the session for our commitment keeps our verification nonce")
+	if !p.skipInit {
+		vAssert(lc.pendingVerificationNonce == nil, "taproot: the pending nonce is consumed")
+	}
+	diff := p.store.diff
+	resent := false
+	for _, m := range res.msgs {
+		if cs, ok := m.(*lnwire.CommitSig); ok && diff != nil && cs == diff.CommitSig {
+			resent = true
+			vAssert(cs.PartialSig.IsSome(), "taproot: the retransmitted commitment_signed carries a partial signature")
+			if !vNative() {
+				vAssert(c03Musig.calls == 1 && c03Musig.tx == diff.Commitment.CommitTx &&
+					c03Musig.session == lc.musigSessions.RemoteSession && c03Musig.remote == want,
+					"taproot: the stored commitment is re-signed once, in the remote session, under the fresh nonce")
+			}
+			vReach("taproot-resigned")
+		}
+		if rev, ok := m.(*lnwire.RevokeAndAck); ok {
+			n, err := chanstate.NewMusigVerificationNonce(
+				lc.channelState.LocalChanCfg.MultiSigKey.PubKey, p.localH+1, lc.taprootNonceProducer,
+			)
+			okN := err == nil
+			if okN {
+				if p.ct.IsTaprootFinal() {
+					d := rev.LocalNonces.UnwrapOr(lnwire.LocalNoncesData{})
+					got, has := d.NoncesMap[p.outpoint.Hash]
+					okN = rev.LocalNonces.IsSome() && has && got == n.PubNonce && len(d.NoncesMap) == 1 && rev.LocalNonce.IsNone()
+				} else {
+					okN = rev.LocalNonce.IsSome() && rev.LocalNonce.ValOpt().UnwrapOr(lnwire.Musig2Nonce{}) == n.PubNonce && rev.LocalNonces.IsNone()
+				}
+			}
+			vAssert(okN, "taproot: the retransmitted revocation carries the verification nonce for local height+1 in the field of its channel type")
+			vReach("taproot-revocation-nonce")
+		}
+	}
+	if !resent && !vNative() {
+		vAssert(c03Musig.calls == 0, "taproot: nothing is signed unless a commitment is retransmitted")
+	}
+}
+
+func c03TableTaproot(kinds int, slim bool) {
+	c03Config()
+	vAssumption("C03 taproot domain: staging and final taproot types; remote nonce absent / legacy field / map with or without the funding txid; skipNonceInit on (sessions pre-exist) or off; no pending+window (SignNextCommitment not reached); MuSig2 partial signatures opaque")
+	p := c03SymParty(1, 2)
+	vAssume(!(p.pending() && p.window()))
+	p.ct = c03TaprootType(vChoice("chanType", 2))
+	p.skipInit = vBool("skipNonceInit")
+	p.prevNonce = c03RemoteNonce("earlierRemoteNonce")
+	c03Musig.calls, c03Musig.tx, c03Musig.session = 0, nil, nil
+	c03Musig.scalar = vU32("partialSigScalar")
+	x := c03SymMsg(p)
+	if slim {
+		// quick tier: the nonce plumbing does not interact with the
+		// data-loss-protect fields, store failures or the restored flag (those
+		// are VerifC03Table's subject and are re-checked on taproot types in
+		// the thorough tier)
+		vAssumption("C03 taproot quick slice: recovery fields present with the correct secret, channel not restored, store read succeeds")
+		vAssume(x.hasOpts && x.secretCorrect && !p.restored && !p.store.tipFails)
+	}
+	c03MsgNonces(p, x, kinds)
+	f := c03Reference(p, x)
+	// taproot: next_local_nonce must be present for the funding output
+	f.nonceBad = x.nonceKind == 0 || x.nonceKind == 3
+	lc := c03Chan(p)
+	res := c03Process(lc, x.m)
+	c03Check("", p, x, f, res)
+	if res.err == nil {
+		c03TaprootPost(lc, p, x, res)
+	}
+}
+
+func VerifC03TableTaproot()         { c03TableTaproot(4, true) }
+func VerifC03TableTaprootThorough() { c03TableTaproot(5, false) }
